@@ -5,6 +5,7 @@
 #include <cmath>
 #include <cstddef>
 #include <cstdio>
+#include <algorithm>
 #include <stdexcept>
 #include <utility>
 #include <vector>
@@ -32,9 +33,50 @@ template <class T> class matrix {
     std::size_t size2() const { return c_; }
 };
 template <class T> matrix<T> zero_matrix(std::size_t r, std::size_t c) { return matrix<T>(r, c); }
-template <class T> class permutation_matrix { public: explicit permutation_matrix(std::size_t) {} };
-template <class M, class P> int lu_factorize(M &, P &) { return 0; }
-template <class P, class M, class V> void lu_substitute(const M &, const P &, V &) {}
+// uBLAS's documented LU: lu_factorize(m, pm) factorises in place with partial pivoting (row of largest modulus in the
+// column) and records the row interchanges in pm; lu_substitute(m, pm, v) applies the interchanges to v and then
+// solves with the unit-lower and the upper factor; the two-argument lu_substitute(m, v) applies NO interchange.
+template <class T> class permutation_matrix {
+    std::vector<T> p_;
+   public:
+    explicit permutation_matrix(std::size_t n) : p_(n) { for (std::size_t i = 0; i < n; i++) p_[i] = (T)i; }
+    T &operator()(std::size_t i) { return p_.at(i); }
+    const T &operator()(std::size_t i) const { return p_.at(i); }
+    std::size_t size() const { return p_.size(); }
+};
+template <class M, class P> int lu_factorize(M &m, P &pm) {
+    std::size_t n = m.size1();
+    int singular = 0;
+    for (std::size_t i = 0; i < n; i++) {
+        std::size_t piv = i;
+        for (std::size_t r = i + 1; r < n; r++) if (std::fabs(m(r, i)) > std::fabs(m(piv, i))) piv = r;
+        if (m(piv, i) != 0.0) {
+            if (piv != i) {
+                pm(i) = piv;
+                for (std::size_t c = 0; c < n; c++) std::swap(m(i, c), m(piv, c));
+            }
+            for (std::size_t r = i + 1; r < n; r++) m(r, i) /= m(i, i);
+        } else if (singular == 0) {
+            singular = (int)i + 1;
+        }
+        for (std::size_t r = i + 1; r < n; r++)
+            for (std::size_t c = i + 1; c < n; c++) m(r, c) -= m(r, i) * m(i, c);
+    }
+    return singular;
+}
+template <class M, class V> void lu_substitute(const M &m, V &v) {
+    std::size_t n = m.size1();
+    for (std::size_t i = 0; i < n; i++)
+        for (std::size_t k = 0; k < i; k++) v[i] -= m(i, k) * v[k];
+    for (std::size_t ii = n; ii-- > 0;) {
+        for (std::size_t k = ii + 1; k < n; k++) v[ii] -= m(ii, k) * v[k];
+        v[ii] /= m(ii, ii);
+    }
+}
+template <class M, class P, class V> void lu_substitute(const M &m, const P &pm, V &v) {
+    for (std::size_t i = 0; i < pm.size(); i++) if (pm(i) != i) std::swap(v[i], v[pm(i)]);
+    lu_substitute(m, v);
+}
 }  // namespace ublas
 namespace odeint {
 extern long shim_observer_calls;   // scripted: how many times the observer is called
